@@ -54,6 +54,34 @@ def evalx(e, env):
     raise AnalysisBroken("evalx: unsupported node %s in %s" % (e[0], show(e)))
 
 
+def eval_index(P, index_expr, env, fields):
+    """the table index for one change: the macro's expression, or - when the index is computed by a helper function - that function evaluated (typed: narrow temporaries truncate) on a
+    change with the given field values"""
+    ix = strip(index_expr)
+    if is_e(ix, "call") and callee_name(ix) in P.fns:
+        from ..interp import run_all, normx, nkey
+        from .. import prog as PG
+        g = P.fns[callee_name(ix)]
+        pv = ["var", g.params[0][0], "param"]
+        e2 = {"#typed": 1, g.params[0][0]: 1}
+        for fl, v in fields.items():
+            e2[nkey(["fld", pv, "event_change." + fl, "->"])] = v
+        vals = set()
+        for o in run_all(g, (g.entry, 0), e2, lambda el: False, P, lambda el, e_: None, max_steps=400):
+            if o.kind == "exit" and o.why == "noreturn":
+                continue
+            if o.kind != "ret":
+                raise AnalysisBroken("index helper %s: %s %s" % (g.name, o.kind, o.why))
+            try:
+                vals.add(PG.tevalx(normx(o.at.e[1]), o.env, P, g))
+            except PG.EvalError as ex:
+                raise AnalysisBroken("index helper %s: %s" % (g.name, ex))
+        if len(vals) != 1:
+            raise AnalysisBroken("index helper %s: %d values" % (g.name, len(vals)))
+        return vals.pop()
+    return evalx(index_expr, env)
+
+
 def run(ctx, config):
     P = ctx.prog(UNITS, config)
     rules = []
@@ -234,7 +262,7 @@ def run(ctx, config):
                         for extra in (0, 0x20, 0xf0 & ~3):
                             env = {fk("read_change"): rc | (extra & ~3), fk("write_change"): wc | (extra & ~3),
                                    fk("close_change"): cc | (extra & ~3), fk("old_events"): old}
-                            idxs.add(evalx(index_expr, env))
+                            idxs.add(eval_index(P, index_expr, env, {"read_change": rc | (extra & ~3), "write_change": wc | (extra & ~3), "close_change": cc | (extra & ~3), "old_events": old}))
                         r_tab.obligations += 1
                         combo = "old=%#x read=%d write=%d close=%d" % (old, rc, wc, cc)
                         if len(idxs) != 1:
